@@ -48,12 +48,21 @@ pub struct Lexer {
 impl Lexer {
     /// Create a new lexer from a string.
     pub fn new<S: Into<String>>(source: S, id: Uuid) -> Lexer {
+        let source: Vec<char> = source.into().chars().collect();
+        // `consume_char` counts a newline as column 0 of the row that follows
+        // it, so the first character of every later line sits at `col == 1`.
+        // Start in the same state, as if a newline preceded the source.
+        let (row, col) = if source.first() == Some(&'\n') {
+            (1, 0)
+        } else {
+            (0, 1)
+        };
         Lexer {
-            source: source.into().chars().collect(),
+            source,
             source_id: id,
             pos: 0,
-            row: 0,
-            col: 0,
+            row,
+            col,
         }
     }
 
